@@ -103,7 +103,8 @@ def main(argv):
                                                                 res["wall_s"], "; ".join(res["notes"])[:300]), flush=True)
     results = harness.run_items(items, modname, progress=progress)
     known = load_known()
-    os.makedirs(os.path.join(HERE, "replays"), exist_ok=True)
+    RDIR = os.environ.get("VF_REPLAY_DIR") or os.path.join(HERE, "replays")
+    os.makedirs(RDIR, exist_ok=True)
     n_viol, n_known, n_inconcl = 0, 0, 0
     seen_known = {}
     lines = []
@@ -120,7 +121,7 @@ def main(argv):
         for v in kept:
             v.setdefault("obligation", res["obligation"])
             h = hashlib.sha256(json.dumps(v.get("replay"), sort_keys=True, default=str).encode()).hexdigest()[:12]
-            path = os.path.join(HERE, "replays", "%s-%s.json" % (pid, h))
+            path = os.path.join(RDIR, "%s-%s.json" % (pid, h))
             json.dump(dict(property=pid, obligation=v["obligation"], description=v.get("description"), witness=v.get("witness"),
                            tags=v.get("tags", []), replay=v.get("replay"),
                            replay_cmd="./check %s --replay %s" % (pid, path)), open(path, "w"), indent=1, default=str)
